@@ -10,6 +10,8 @@ import typing_h as T
 TABLES = ["Kits", "Enzymes"]
 LAKE_TARGETS = ["Moclo.Props.C05", "Moclo.Tables.Kits", "Moclo.Tables.Enzymes"]
 THEOREMS = ["Moclo.C05." + t for t in ["narrowed_accepts_iff", "sig_narrows", "generic_eq", "part_eq", "part_accepts_iff", "kit_structures_derived", "characterize_spec"]]
+# reductions under which a failing case stays a case of this property (see shrink.py)
+SHRINK = {"strings": True}
 RULE = ("every signature-derived class of the kits and user-defined signatures (incl. degenerate IUPAC ones) over "
         "every enzyme geometry; records with a unique generic match: members of the type, members of sibling types, "
         "random overhangs, near-misses differing in one overhang letter, at a random rotation; part verdict compared "
